@@ -453,6 +453,24 @@ def sh_loop_call(S):
             + S[2] + _end(S[2]) + [REJECT, "f:"] + S[1] + ["retsub"])
 
 
+def sh_loop_two_exits(S):
+    """a loop with a middle block between head and tail and two accepting exits (one at the head, one at the tail) that
+    carry different statements: the backward pass re-visits the loop blocks with information that changes for one key only"""
+    return (["int 0", "store 20", "loop:", "load 20", "int 2", ">=", "bnz lx_a",
+             "load 20", "int 1", "+", "store 20", "b lx_mid", "lx_mid:", "load 8", "bnz lx_b", "b loop",
+             "lx_a:"] + S[0] + ["int 1", "return", "lx_b:"] + S[1] + S[2] + _end(S[2]) + [REJECT])
+
+
+def _multiway_rep(op: str) -> Callable[[List[Lines]], Lines]:
+    """switch / match naming the same (non fall-through) label more than once"""
+    def shape(S):
+        labels = ["mw_a0", "mw_a1", "mw_a0"]
+        head = ([f"int {i}" for i in range(3)] if op == "match" else []) + _selector(3)
+        out = head + [f"{op} {' '.join(labels)}", "b mw_join", "mw_a0:"] + S[0] + ["b mw_join", "mw_a1:"] + S[1]
+        return out + ["mw_join:"] + S[2] + _end(S[2]) + [REJECT]
+    return shape
+
+
 def sh_flag_earlier_block(S):
     """a flag computed in an earlier block is combined with the condition in a later block (`flag && cond` with the flag
     unknown to the block-local reconstruction): only meaningful when S[1] is a plain `cond; assert`-style statement"""
@@ -538,6 +556,9 @@ SHAPES: List[Shape] = [
     Shape("empty_sub", 2, 1, sh_empty_sub),
     Shape("loop_call_exit", 3, 2, sh_loop_call_exit),
     Shape("loop_call", 3, 2, sh_loop_call),
+    Shape("loop_two_exits", 3, 2, sh_loop_two_exits),
+    Shape("switch_rep", 3, 2, _multiway_rep("switch")),
+    Shape("match_rep", 3, 2, _multiway_rep("match")),
 ]
 SHAPE_BY_NAME = {s.name: s for s in SHAPES}
 
